@@ -212,7 +212,7 @@ func (w *World) GenScriptRequest(t *rapid.T, l *LState) TxRequest {
 	return r
 }
 
-// RunHistory drives one generated history on one ledger and returns its summary.
+// RunHistory drives one generated history on one ledger of a fresh world and returns its summary.
 func RunHistory(t *rapid.T, st *stats.Collector, o HistOpts) (*World, *LState, *HistorySummary) {
 	opts := env.Options{}
 	w := NewWorld(t, st, opts, o.Focus...)
@@ -222,6 +222,12 @@ func RunHistory(t *rapid.T, st *stats.Collector, o HistOpts) (*World, *LState, *
 	if o.SecondLedger {
 		other = w.AddLedger("l2", "b1", fs)
 	}
+	return w, l, w.Drive(t, l, other, o)
+}
+
+// Drive runs a generated history on ledger l (and optionally a second one) of an existing world.
+func (w *World) Drive(t *rapid.T, l, other *LState, o HistOpts) *HistorySummary {
+	fs := l.Features
 	sum := &HistorySummary{}
 	if o.MaxPostings == 0 {
 		o.MaxPostings = 4
@@ -416,5 +422,5 @@ func RunHistory(t *rapid.T, st *stats.Collector, o HistOpts) (*World, *LState, *
 	sum.Failures = l.Failures
 	sum.DryRuns = l.DryRuns
 	sum.Key = strings.Join(l.Ops, "\n") + fmt.Sprint(fs)
-	return w, l, sum
+	return sum
 }
